@@ -529,6 +529,10 @@ def build_spec(d):
     from leaspy.variables.specs import DataVariable, IndividualLatentVariable, LinkedVariable, PopulationLatentVariable
     if d[0] == "data":
         return DataVariable()
+    if d[0] == "param":
+        from leaspy.variables.specs import Collect, ModelParameter
+        ded = {x[0]: LinkedVariable(Sum(*x[1:])) for x in d[1:]}
+        return ModelParameter(shape=(1,), suff_stats=Collect("c15_stat", **ded), update_rule=Sum("c15_stat"))
     if d[0] == "ind":
         return IndividualLatentVariable(Normal(d[1], d[2]))
     if d[0] == "pop":
@@ -614,6 +618,8 @@ def _op_token(name, d):
         return f"{_enc(name)}~p"
     if d[0] == "link":
         return "~".join([_enc(name), "l"] + [_enc(x) for x in d[1:]])
+    if d[0] == "param":
+        return "~".join([_enc(name), "m"] + [_enc(x[0]) + ":" + ",".join(_enc(a) for a in x[1:]) for x in d[1:]])
     return "~".join([_enc(name), "i" if d[0] == "ind" else "o", _enc(d[1]), _enc(d[2])])
 
 
@@ -643,6 +649,17 @@ def statement_history(rng):
         else:
             z = rng.choice(lat) if lat else "q"
             extra.append((f"nll_regul_{z}", ("data",)))      # after (refused: in use) or before (taken) the latent variable
+    # model parameters with dedicated sufficient-statistic variables (added through the same `update` as the companions):
+    # fresh names, a name shared by two parameters, a companion name, a reserved word - the refusal then comes half-way
+    names_now = [n for n, _ in ops]
+    for j in range(rng.randrange(0, 3)):
+        z = rng.choice(lat) if lat else "q"
+        ded = []
+        for _ in range(rng.randrange(0, 3)):
+            dn = rng.choice([f"{z}_sqr", f"{z}_sqr", f"stat{j}", "é2", f"nll_regul_{z}", "sum", f"{z}_mean", "nll_regul_ind_sum"])
+            if dn not in [x[0] for x in ded]:
+                ded.append((dn,) + tuple(sorted(rng.sample(names_now, rng.randrange(1, min(3, len(names_now)) + 1)))))
+        extra.append((f"par{j}" if rng.random() < 0.8 else f"{z}_std", ("param",) + tuple(ded)))
     for e in extra:
         if e[0] == "front":
             ops.insert(rng.randrange(0, max(1, len(ops) // 2)), e[1])
@@ -654,7 +671,7 @@ def statement_history(rng):
 def statements_case(chk, env, ops):
     """The statements on a real `NamedVariables`; returns (request line, canonical observation) or None."""
     from leaspy.variables.specs import NamedVariables
-    case = {"statements": [[n, list(d)] for n, d in ops]}
+    case = {"statements": [[n, [list(x) if isinstance(x, tuple) else x for x in d]] for n, d in ops]}
     try:
         nv = NamedVariables()
         oks = []
@@ -1278,7 +1295,7 @@ def replay(chk: core.Check, payload):
         incremental_definitions(chk, only=(case["model"], case["kw"], case["instalments"][0]))
         return
     if case and "statements" in case:
-        ops = [(n, tuple(d)) for n, d in case["statements"]]
+        ops = [(n, tuple(tuple(x) if isinstance(x, list) else x for x in d)) for n, d in case["statements"]]
         r = statements_case(chk, env, ops)
         chk.case(("statements", repr(ops)), sample=case)
         if r is not None:
